@@ -7,21 +7,24 @@ open Arc.Generated.C04
 
 /-- what `flushMerged` needs of a batch to be panic-free -/
 def flushable (m : Batch) : Prop :=
-  ∀ c ∈ m.cols, c.len = m.times.length ∧ (c.vlen = 0 ∨ c.vlen = c.len)
+  m.times = [] ∨ ∀ c ∈ m.cols, c.len = m.times.length ∧ (c.vlen = 0 ∨ c.vlen = c.len)
 
 /-- the carve-out on batches: every column, and every validity vector that exists, is exactly as long
 as the `time` column. (Every producer except `rowsToColumnar` builds such batches; see
 `C04_full_witness_time_field`.) -/
 def evenBatch (b : Batch) : Bool :=
-  b.cols.all (fun c => c.len == b.times.length && (c.vlen == 0 || c.vlen == c.len))
+  b.times.isEmpty || b.cols.all (fun c => c.len == b.times.length && (c.vlen == 0 || c.vlen == c.len))
 
 theorem even_flushable {b : Batch} (h : evenBatch b = true) : flushable b := by
   unfold evenBatch at h
-  simp only [List.all_eq_true] at h
-  intro c hc
-  have := h c hc
-  simp only [Bool.and_eq_true, beq_iff_eq, Bool.or_eq_true] at this
-  exact this
+  simp only [Bool.or_eq_true, List.isEmpty_iff, List.all_eq_true] at h
+  rcases h with h | h
+  · exact Or.inl h
+  · refine Or.inr ?_
+    intro c hc
+    have := h c hc
+    simp only [Bool.and_eq_true, beq_iff_eq, Bool.or_eq_true] at this
+    exact this
 
 theorem allLensEq_of {l : List Col} {n : Nat} (h : ∀ c ∈ l, c.len = n) : allLensEq l = true := by
   cases l with
@@ -69,7 +72,12 @@ theorem flushMerged_ok {m : Batch} (h : flushable m) : ∃ r, flushMerged m = .o
   unfold flushMerged
   split
   · exact ⟨_, rfl⟩
-  · simp only
+  · rename_i t0 ts hts
+    have h : ∀ c ∈ m.cols, c.len = m.times.length ∧ (c.vlen = 0 ∨ c.vlen = c.len) := by
+      rcases h with h | h
+      · rw [h] at hts; cases hts
+      · exact h
+    simp only
     split
     · split
       · exact writeParquet_ok (n := m.times.length) h
@@ -87,6 +95,7 @@ theorem flushMerged_ok {m : Batch} (h : flushable m) : ∃ r, flushMerged m = .o
     · exact writeParquet_ok (evened_ok _ _)
 
 theorem merged_flushable (bs : List Batch) : flushable (mergedBatch bs) := by
+  refine Or.inr ?_
   intro c hcm
   unfold mergedBatch at hcm ⊢
   simp only [List.mem_map] at hcm
@@ -107,5 +116,81 @@ theorem flushBatches_ok {bs : List Batch} (hc : ∀ b ∈ bs, evenBatch b = true
     · simp only [hcf, ↓reduceIte]; exact ⟨_, rfl⟩
     · simp only [hcf, Bool.false_eq_true, ↓reduceIte]
       exact flushMerged_ok (merged_flushable _)
+
+/-! ### convertColumnsToTyped hands over even batches (fact `convertChecksLengths`) -/
+
+theorem convCol_vlen {nm : Name} {cs : List Cell} {c : Col} (h : convCol nm cs = some c) :
+    c.vlen = 0 ∨ c.vlen = c.len := by
+  unfold convCol at h
+  simp only at h
+  repeat' split at h
+  all_goals first
+    | cases h
+    | (cases h; by_cases hn : hasNil cs = true <;> simp [hn])
+
+theorem convCols_vlen : ∀ {cols : List (Name × List Cell)} {out : List Col}, convCols cols = some out →
+    ∀ c ∈ out, c.vlen = 0 ∨ c.vlen = c.len
+  | [], out, h => by
+    simp only [convCols] at h; cases h; intro c hc; cases hc
+  | (nm, cs) :: rest, out, h => by
+    unfold convCols at h
+    split at h
+    · exact convCols_vlen h
+    · split at h
+      · rename_i c r hc hr
+        cases h
+        intro d hd
+        rcases List.mem_cons.1 hd with rfl | hd
+        · exact convCol_vlen hc
+        · exact convCols_vlen hr d hd
+      · cases h
+
+theorem allLensEq_all {l : List Col} (h : allLensEq l = true) : ∀ c ∈ l, ∀ d ∈ l, c.len = d.len := by
+  cases l with
+  | nil => intro c hc; cases hc
+  | cons x rest =>
+    unfold allLensEq at h
+    simp only [List.all_eq_true, beq_iff_eq] at h
+    have hx : ∀ c ∈ x :: rest, c.len = x.len := by
+      intro c hc
+      rcases List.mem_cons.1 hc with rfl | hc
+      · rfl
+      · exact h c hc
+    intro c hc d hd
+    rw [hx c hc, hx d hd]
+
+theorem fitLen_length (n : Nat) (ts : List Int) : (fitLen n ts).length = n := by
+  unfold fitLen; simp
+
+theorem convert_even {cols : List (Name × List Cell)} {times : List Int} {nrec : Nat} {b : Batch}
+    (h : convert cols times nrec = some b) : evenBatch b = true := by
+  unfold convert at h
+  cases hc : convCols cols with
+  | none => simp [hc] at h
+  | some cs =>
+    simp only [hc] at h
+    have hf : convertChecksLengths = true := by decide
+    by_cases hl : allLensEq cs = true
+    · simp only [hf, hl, Bool.not_true, Bool.and_false, Bool.false_eq_true, ↓reduceIte, Option.some.injEq] at h
+      subst h
+      unfold evenBatch
+      simp only
+      cases hfind : cs.find? (fun c => c.name == timeName) with
+      | none =>
+        have : (if cs.any (fun c => c.name == timeName) = true then fitLen 0 times else []) = [] := by
+          split <;> rfl
+        simp [this]
+      | some c0 =>
+        have hc0 : c0 ∈ cs := List.mem_of_find?_eq_some hfind
+        by_cases ht : cs.any (fun c => c.name == timeName) = true
+        · simp only [ht, ↓reduceIte, fitLen_length, Bool.or_eq_true, List.isEmpty_iff, List.all_eq_true,
+            Bool.and_eq_true, beq_iff_eq]
+          refine Or.inr ?_
+          intro c hcm
+          refine ⟨allLensEq_all hl c hcm c0 hc0, ?_⟩
+          exact convCols_vlen hc c hcm
+        · simp [ht]
+    · have hl' : allLensEq cs = false := by simpa using hl
+      simp [hf, hl'] at h
 
 end Arc.C04
